@@ -220,6 +220,22 @@ Section QScale.
       rewrite (fulfills_rel _ _ _ _ (proj2 Hy) Hq), IH. reflexivity.
     Qed.
 
+    Lemma ksubtract_rel votes votes' q q' prev : vrel votes votes' -> qsc q q' -> forall fuel sel over,
+      ksubtract fuel votes' q' prev sel over = ksubtract fuel votes q prev sel over.
+    Proof.
+      intros Hv Hq fuel. induction fuel as [|f IH]; intros sel over; cbn [ksubtract]; [reflexivity|].
+      destruct (over <=? 0)%Z; [reflexivity|].
+      match goal with |- match get_n_best _ ?r' 1 with _ => _ end = match get_n_best _ ?r 1 with _ => _ end =>
+        assert (E : get_n_best Qle_bool r' 1 = get_n_best Qle_bool r 1) end.
+      { apply (get_n_best_rel Qle_bool Qle_bool qsc qsc_le).
+        induction sel as [|[ky s] sel IHs]; cbn [map]; constructor; [|exact IHs].
+        split; [reflexivity|]. unfold krem. cbn [fst snd]. destruct ky as [c|l].
+        - pose proof (dget_or_rel _ _ c Hv) as Hd. unfold qsc in *. rewrite Hd, Hq. ring.
+        - unfold qsc in *. rewrite Hq. ring. }
+      rewrite E. clear E. destruct (get_n_best Qle_bool _ 1) as [|[ky|ks] rest]; [reflexivity|apply IH|].
+      destruct (all_plain ks); [|reflexivity]. destruct (kmem sel _); apply IH.
+    Qed.
+
     Lemma subtract_rel votes votes' q q' prev : vrel votes votes' -> qsc q q' -> forall fuel sel over,
       subtract fuel votes' q' prev sel over = subtract fuel votes q prev sel over.
     Proof.
@@ -231,8 +247,8 @@ Section QScale.
         induction sel as [|[c s] sel IHs]; simpl; constructor; [|exact IHs].
         split; [reflexivity|]. simpl. pose proof (dget_or_rel _ _ c Hv) as Hd. unfold qsc in *.
         rewrite Hd, Hq. ring. }
-      rewrite E. clear E. destruct (get_n_best Qle_bool _ 1) as [|[c|l] rest]; [reflexivity| |reflexivity].
-      apply IH.
+      rewrite E. clear E. destruct (get_n_best Qle_bool _ 1) as [|[c|l] rest]; [reflexivity|apply IH|].
+      destruct (over - 1 <=? 0)%Z; [reflexivity|]. apply ksubtract_rel; assumption.
     Qed.
 
     Theorem qd_eval_rel fuel : forall votes votes' n prev caps, vrel votes votes' ->
